@@ -9,6 +9,8 @@ package store
 
 import (
 	"context"
+	"fmt"
+	"os"
 	"path/filepath"
 	"testing"
 	"time"
@@ -43,6 +45,115 @@ func Test_VerifReplay_C04StaleStagedWAL(t *testing.T) {
 	t.Run("full-needed", func(t *testing.T) { verifC04StaleStagedWAL(t, false) })
 	t.Run("load", func(t *testing.T) { verifC04StaleStagedWAL(t, true) })
 	t.Run("install", verifC04StaleStagedWALInstall)
+}
+
+// Replay driver for fsmSnapshot#ensures[lost-segment-needs-full]: the WAL has been checkpointed into
+// the database (and truncated) when keeping its compacted copy fails (here: the checksum file
+// cannot be created). The frames are then in the database only; an incremental snapshot taken
+// afterwards continues a chain that misses them.
+func Test_VerifReplay_C04LostSegment(t *testing.T) {
+	s, ln := mustNewStore(t)
+	defer ln.Close()
+	if err := s.Open(); err != nil {
+		t.Fatalf("failed to open single-node store: %s", err.Error())
+	}
+	defer s.Close(true)
+	s.NoSnapshotOnClose = true
+	if err := s.Bootstrap(NewServer(s.ID(), s.Addr(), true)); err != nil {
+		t.Fatalf("failed to bootstrap single-node store: %s", err.Error())
+	}
+	if _, err := s.WaitForLeader(10 * time.Second); err != nil {
+		t.Fatalf("Error waiting for leader: %s", err)
+	}
+	mustExecute(t, s, []string{
+		`CREATE TABLE foo (id INTEGER NOT NULL PRIMARY KEY, name TEXT)`,
+		`CREATE TABLE bar (id INTEGER NOT NULL PRIMARY KEY, name TEXT)`,
+		`INSERT INTO foo(id, name) VALUES(1, "v0")`,
+	})
+	if err := s.Snapshot(0); err != nil { // full
+		t.Fatalf("failed to snapshot store: %s", err.Error())
+	}
+
+	fsm := NewFSM(s)
+	failed := false
+	for i := 0; i < 50 && !failed; i++ {
+		mustExecute(t, s, []string{fmt.Sprintf(`UPDATE foo SET name="w%d" WHERE id=1`, i)})
+		stop := make(chan struct{})
+		done := make(chan struct{})
+		go func() {
+			// the disk fault: as soon as the new segment appears, its checksum file cannot be created
+			defer close(done)
+			for {
+				select {
+				case <-stop:
+					return
+				default:
+				}
+				if m, _ := filepath.Glob(filepath.Join(s.walStagingDir, "*.wal")); len(m) > 0 {
+					os.Mkdir(m[len(m)-1]+".crc32", 0755)
+					return
+				}
+			}
+		}()
+		f, err := fsm.Snapshot()
+		close(stop)
+		<-done
+		if err != nil {
+			failed = true
+			break
+		}
+		// the fault came too late this time: store the snapshot normally and try again
+		metas, _ := s.snapshotStore.List()
+		cfg := s.raft.GetConfiguration()
+		sink, err := s.snapshotStore.Create(1, metas[0].Index+1, metas[0].Term, cfg.Configuration(), 1, nil)
+		if err != nil {
+			t.Fatalf("create sink: %s", err)
+		}
+		if err := f.Persist(sink); err != nil {
+			t.Fatalf("persist: %s", err)
+		}
+		if err := sink.Close(); err != nil {
+			t.Fatalf("close sink: %s", err)
+		}
+		f.Release()
+	}
+	if !failed {
+		t.Skip("could not make the segment's Close fail in 50 attempts")
+	}
+
+	// a later write elsewhere, and an incremental snapshot through the FSM and a sink
+	mustExecute(t, s, []string{`INSERT INTO bar(id, name) VALUES(1, "later")`})
+	f, err := fsm.Snapshot()
+	if err != nil {
+		t.Fatalf("failed to snapshot node: %s", err.Error())
+	}
+	metas, _ := s.snapshotStore.List()
+	cfg := s.raft.GetConfiguration()
+	sink, err := s.snapshotStore.Create(1, metas[0].Index+1000, metas[0].Term, cfg.Configuration(), 1, nil)
+	if err != nil {
+		t.Fatalf("create sink: %s", err)
+	}
+	if err := f.Persist(sink); err != nil {
+		t.Fatalf("persist: %s", err)
+	}
+	if err := sink.Close(); err != nil {
+		t.Fatalf("close sink: %s", err)
+	}
+	f.Release()
+
+	live, err := s.db.QueryStringStmt("SELECT * FROM foo")
+	if err != nil {
+		t.Fatalf("failed to query: %s", err)
+	}
+	d := verifC04RestoreNewest(t, s)
+	defer d.Close()
+	restored, err := d.QueryStringStmt("SELECT * FROM foo")
+	if err != nil {
+		t.Fatalf("failed to query restored database: %s", err)
+	}
+	if exp, got := asJSON(live), asJSON(restored); exp != got {
+		t.Fatalf("C04 violated: newest snapshot restores to a different database than the applied one\nlive:     %s\nrestored: %s", exp, got)
+	}
 }
 
 // The same with a snapshot installed from a leader in place of the full snapshot: Raft writes the
